@@ -79,6 +79,9 @@ type Case struct {
 	AuthErr  string   `json:"auth_err,omitempty"`  // what the credential check returns for bad credentials: unauth | plain | forbidden
 	// LateResponder: the API's error responder is installed after the handler has been built.
 	LateResponder bool  `json:"late_responder,omitempty"`
+	// SharedResults: the handlers return the same middleware.Error / NotImplemented value for every request that asks
+	// for it (a package-level "not implemented yet" responder), instead of a fresh one per request.
+	SharedResults bool `json:"shared_results,omitempty"`
 	Ops           []Op  `json:"ops"`
 	Reqs          []Req `json:"reqs"`
 }
@@ -315,6 +318,8 @@ func Check(c Case) *kit.Violation {
 		api.ServeError = responder
 	}
 	call := &handlerCall{}
+	sharedNotImpl := middleware.NotImplemented("N")
+	sharedErrors := map[int]middleware.Responder{}
 	for i, op := range c.Ops {
 		api.RegisterOperation(strings.ToLower(op.Method), fmt.Sprintf("/p%d", i), runtime.OperationHandlerFunc(func(interface{}) (interface{}, error) {
 			call.ran++
@@ -333,8 +338,17 @@ func Check(c Case) *kit.Violation {
 			case "resperr":
 				return respErr{call}, nil
 			case "mwerror":
+				if c.SharedResults {
+					if sharedErrors[call.code] == nil {
+						sharedErrors[call.code] = middleware.Error(call.code, "E")
+					}
+					return sharedErrors[call.code], nil
+				}
 				return middleware.Error(call.code, "E"), nil
 			case "notimpl":
+				if c.SharedResults {
+					return sharedNotImpl, nil
+				}
 				return middleware.NotImplemented("N"), nil
 			case "errplain", "errstatus", "errcomposite":
 				return nil, call.retErr
